@@ -35,7 +35,7 @@ Open Scope Z_scope.
 Theorem model_is_of_current_source :
   code_cfg = {| c_build_archives := true; c_reissue_archives := true; c_rejects_archived := true; c_set_once := true;
                 c_queries_stored := true; c_confirm_recomputes := true;
-                c_genesis_archives_live := Gen.C13.genesis_archives_live |} /\
+                c_genesis_archives_live := Gen.C13.genesis_archives_live; c_redeploy_reissues := true |} /\
   Gen.C13.batch_queries = ["BatchRequestByNonce"; "LastPendingBatchForGasEstimation"; "LastPendingBatchRequestByAddr";
                            "OutgoingTxBatches"]%string /\
   Gen.C13.add_evidence_one_entry_per_validator = true /\
@@ -186,7 +186,8 @@ Proof. exact (fun Sig cp recover => query_serves_issued cp recover code_cfg eq_r
 Print Assumptions queries_serve_only_archived_checkpoints.
 
 (** ... and why that is needed: were the queries to recompute BytesToSign for the deployment id in
-    force at query time, then after a redeploy the validator that signs what the query gave it is
+    force at query time (on a tree that does not re-issue open batches on activation, where seeded
+    change C was made), then after a redeploy the validator that signs what the query gave it is
     jailed by the replay, with the binding provably intact. *)
 Theorem with_recomputing_queries_an_honest_signer_is_jailed :
   let s0 := run ex_cp ex_recover recomputing_queries_cfg ex_redeploy_history in
@@ -204,7 +205,7 @@ Print Assumptions with_recomputing_queries_an_honest_signer_is_jailed.
 (** Issued versus verified (ConfirmBatch verifies against the checkpoint recomputed for the id in
     force NOW, the queries serve the stored BytesToSign).  They coincide while the id the record was
     written under is in force -- and every stored BytesToSign is the record's checkpoint under some
-    id ... *)
+    id ... (this much holds whether or not open batches are re-issued on activation) *)
 Theorem confirm_checks_the_published_checkpoint_while_id_unchanged :
   forall (Sig : Type) (cp : Z -> Z -> Z -> Z) (recover : Z -> Sig -> option addr) (ops : list (op Sig)) (key : Z) (b : batch),
   find_batch (st_batches (run cp recover code_cfg ops)) key = Some b ->
@@ -221,19 +222,43 @@ Proof.
 Qed.
 Print Assumptions confirm_checks_the_published_checkpoint_while_id_unchanged.
 
-(** ... but NOT across a redeploy, on the code as it is: for a batch that outlives a compass
-    change the published (archived) checkpoint is no longer what ConfirmBatch accepts, and the one
-    it accepts was never published nor archived, so its signer can be jailed by evidence.  No clause
-    of C13 is violated (the chain never asked for that signature); recorded as an observation. *)
+(** ... and, since skyway re-issues every open batch of a chain when a compass is activated for it
+    (refreshOpenBatchCheckpoints: recomputed for the new id, stored AND archived; shape checked by T),
+    for ALL histories without a stale activation: what ConfirmBatch verifies against IS what the
+    queries serve -- issued = verified, also across redeploys, restarts, re-estimates. *)
+Theorem confirm_checks_what_the_queries_serve :
+  forall (Sig : Type) (cp : Z -> Z -> Z -> Z) (recover : Z -> Sig -> option addr) (ops : list (op Sig)) (key : Z),
+  Forall (@not_stale Sig) ops ->
+  confirm_checks_against cp code_cfg (run cp recover code_cfg ops) key = served_bts cp code_cfg (run cp recover code_cfg ops) key.
+Proof. exact (fun Sig cp recover => confirm_checks_what_is_served cp recover code_cfg eq_refl). Qed.
+Print Assumptions confirm_checks_what_the_queries_serve.
+
+(** Why the re-issue is needed for that (a tree without it, main before a05a08cf): for a batch that
+    outlives a compass change the published (archived) checkpoint is no longer what ConfirmBatch
+    accepts, and the one it accepts was never published nor archived, so its signer can be jailed by
+    evidence. *)
 Theorem confirm_after_redeploy_verifies_an_unpublished_checkpoint :
-  let s := run ex_cp ex_recover code_cfg ex_redeploy_history in
-  served_bts ex_cp code_cfg s 1 = Some (ex_cp 7 42 300000) /\
-  confirm_checks_against ex_cp code_cfg s 1 = Some (ex_cp 8 42 300000) /\
+  let s := run ex_cp ex_recover no_reissue_cfg ex_redeploy_history in
+  served_bts ex_cp no_reissue_cfg s 1 = Some (ex_cp 7 42 300000) /\
+  confirm_checks_against ex_cp no_reissue_cfg s 1 = Some (ex_cp 8 42 300000) /\
   In (ex_cp 7 42 300000) (st_archive s) /\
   ~ In (ex_cp 8 42 300000) (st_issued s) /\ ~ In (ex_cp 8 42 300000) (st_archive s) /\
-  newly_jailed s (step ex_cp ex_recover code_cfg s (OEvidence 1 42 0 (ex_sign 5 (ex_cp 8 42 300000)))) 5.
+  newly_jailed s (step ex_cp ex_recover no_reissue_cfg s (OEvidence 1 42 0 (ex_sign 5 (ex_cp 8 42 300000)))) 5.
 Proof. exact confirm_after_redeploy_checks_unpublished. Qed.
 Print Assumptions confirm_after_redeploy_verifies_an_unpublished_checkpoint.
+
+(** Observation on the code as it is: ActivateChainReferenceID called with a contract version not
+    above the active one changes nothing in the chain info but still publishes the activation event;
+    skyway then re-issues the open batches for the id the EVENT carries.  Everything it publishes is
+    archived (no clause of C13 is touched), but issued <> verified again for those batches. *)
+Theorem stale_activation_reissues_for_an_id_not_in_force :
+  let s := run ex_cp ex_recover code_cfg
+             [OSetTid 1 7; OSetReg [(1, 5, 210); (1, 6, 212)]; OBuild 1 1 42; OStaleActivate 1 9] in
+  served_bts ex_cp code_cfg s 1 = Some (ex_cp 9 42 300000) /\
+  confirm_checks_against ex_cp code_cfg s 1 = Some (ex_cp 7 42 300000) /\
+  In (ex_cp 9 42 300000) (st_archive s) /\ In (ex_cp 7 42 300000) (st_archive s).
+Proof. exact stale_activation_desyncs_now. Qed.
+Print Assumptions stale_activation_reissues_for_an_id_not_in_force.
 
 (** Chain restart from an exported genesis.  [genesis_safe] holds for EVERY history once InitGenesis
     archives what it imports (the flag is read from the source) ... *)
